@@ -64,13 +64,13 @@ def plan(tier, seed):
         pick = [c for c in cfgs if c["senders"] * c["items"] <= 2 and c["receivers"] <= 2]
         n_dfs = 32
         for i in range(n_dfs):
-            shards.append({"kind": "dfs", "configs": pick[i::n_dfs], "cap": 260})
+            shards.append({"kind": "dfs", "configs": pick[i::n_dfs], "cap": 130, "n_random": 130, "seed": seed})
         rest = [c for c in cfgs if c not in pick]
         for i in range(8):
             shards.append({"kind": "random", "configs": rest[i::8], "n_per": 10, "seed": seed * 31 + i})
     else:
         for i in range(0, len(cfgs), 8):
-            shards.append({"kind": "dfs", "configs": cfgs[i:i + 8], "cap": 4000})
+            shards.append({"kind": "dfs", "configs": cfgs[i:i + 8], "cap": 3000, "n_random": 1000, "seed": seed})
         for i in range(8):
             shards.append({"kind": "random", "configs": cfgs[i::8], "n_per": 150, "seed": seed * 31 + i})
     shards.append({"kind": "stub", "seed": seed, "reps": 3 if tier == "quick" else 40})
@@ -555,6 +555,13 @@ def run_shard(shard) -> Result:
                 n, exhausted = explore(lambda ch: run_schedule(cfg, ch), shard["cap"],
                                        lambda ch, run: judge(cfg, ch, run, res, hashes))
                 res.counters["configs_exhausted" if exhausted else "configs_capped"] += 1
+                if not exhausted and shard.get("n_random"):
+                    # a capped DFS only sees the neighbourhood of its first path: seeded random schedules spread over the
+                    # whole depth of the same configuration
+                    rrng = random.Random(f"{shard.get('seed', 0)}-dfsrand-{cfg_name(cfg)}")
+                    for _ in range(shard["n_random"]):
+                        ch = Chooser([], rrng)
+                        judge(cfg, ch, run_schedule(cfg, ch), res, hashes)
                 res.extra.setdefault("per_config", {})[cfg_name(cfg)] = f"{n} schedules, {len(hashes)} histories, {'exhaustive' if exhausted else 'capped'}"
             else:
                 rng = random.Random(f"{shard['seed']}-{cfg_name(cfg)}")
